@@ -502,6 +502,26 @@ int Hclose(int32 file_id)
     __CPROVER_ensures((g_io_failed || g_htp_failed) ==> __CPROVER_return_value == FAIL)
     __CPROVER_ensures(g_close_n <= 1);
 
+/* C16/C17: the deferred flush.  Nothing happens unless caching is on and something is dirty; DD blocks first, then the
+   end-of-file marker; any failure is reported and leaves the dirty flags set so that a later flush retries. */
+static int HIsync(filerec_t *file_rec)
+    __CPROVER_requires(file_rec == g_frec && FREC_WF(file_rec) && COH(file_rec) && g_file_writable == WRITABLE(file_rec))
+    __CPROVER_requires((!file_rec->cache || !file_rec->dirty) || WRITABLE(file_rec)) /* only a writable file gets dirty */
+    __CPROVER_requires(g_htpsync_n == 0 && g_wr_n == 0 && (file_rec->dirty & ~3) == 0)
+    __CPROVER_requires(g_add_session == 0 || g_L <= file_rec->f_end_off)
+    __CPROVER_assigns(file_rec->dirty, file_rec->f_cur_off, file_rec->last_op, g_fpos, g_pos_valid, g_io_failed, g_seek_n, g_last_stdio, g_wr_n,
+                      g_wr_off, g_wr_len, g_min_wr_off, g_off_written, g_off_byte, g_htpsync_n, g_htp_failed)
+    __CPROVER_ensures((g_io_failed && !__CPROVER_old(g_io_failed)) || g_htp_failed ==> __CPROVER_return_value == FAIL)
+    __CPROVER_ensures(__CPROVER_return_value == SUCCEED || __CPROVER_return_value == FAIL)
+    __CPROVER_ensures((!__CPROVER_old(file_rec->cache) || !__CPROVER_old(file_rec->dirty)) ==>
+                      (__CPROVER_return_value == SUCCEED && g_htpsync_n == 0 && g_wr_n == 0 && file_rec->dirty == __CPROVER_old(file_rec->dirty)))
+    __CPROVER_ensures((__CPROVER_old(file_rec->cache) && __CPROVER_old(file_rec->dirty) && __CPROVER_return_value == SUCCEED) ==>
+                      (file_rec->dirty == 0 && g_htpsync_n == ((__CPROVER_old(file_rec->dirty) & DDLIST_DIRTY) ? 1 : 0) &&
+                       g_wr_n == ((__CPROVER_old(file_rec->dirty) & FILE_END_DIRTY) ? 1 : 0)))
+    __CPROVER_ensures(__CPROVER_return_value == FAIL ==> file_rec->dirty == __CPROVER_old(file_rec->dirty))
+    /* the end-of-file byte goes at (not below) the end of the file */
+    __CPROVER_ensures((g_wr_n == 1 && !g_io_failed) ==> g_wr_off == file_rec->f_end_off);
+
 #ifdef H4V_NATIVE
 #include "h4v_native_wrap.h"
 #endif
@@ -821,4 +841,19 @@ h_Hclose(void)
     H4V_COVER(r == FAIL && g_close_n == 0 && file_id == g_fid, "Hclose refused (attached)");
     H4V_COVER(r == FAIL && g_io_failed, "Hclose reports I/O failure");
     H4V_CANARY("Hclose end");
+}
+
+void
+h_HIsync(void)
+{
+    mk_env(1);
+    g_htp_may_fail = 1;
+    g_htpsync_n    = 0;
+    H4V_HAVOC(int, g_add_session);
+    H4V_HAVOC(long, g_L);
+    int r = HIsync(g_frec);
+    H4V_COVER(r == SUCCEED && g_htpsync_n == 1 && g_wr_n == 1, "HIsync flushed DDs and extended the file");
+    H4V_COVER(r == SUCCEED && g_htpsync_n == 0 && g_wr_n == 0, "HIsync nothing to do");
+    H4V_COVER(r == FAIL, "HIsync reports failure");
+    H4V_CANARY("HIsync end");
 }
